@@ -6,6 +6,8 @@ calls against sidecar contracts, loops cut at sidecar invariants, exceptions as 
 from __future__ import annotations
 
 import ast
+import os
+import sys
 import time
 from fractions import Fraction
 
@@ -214,18 +216,29 @@ class Engine:
         self.b = _b.Builtins(self)
 
     # ------------------------------------------------------------------ solver helpers
-    def quick_sat(self, assumptions, extra=None):
+    def quick_sat(self, assumptions, extra=None, full=False):
+        """Feasibility query used for pruning. By default only the quantifier-free part of the path
+        condition is used (a subset of the assumptions: `unsat` stays sound, we merely prune less; what
+        is not pruned here becomes an obligation for the back ends with the complete path condition)."""
         t0 = time.time()
+        terms = [a for a in assumptions if full or not z3.is_quantifier(a)]
+        if extra is not None:
+            terms.append(extra)
+        key = None
         s = z3.Solver()
         s.set("rlimit", self.rlimit_quick)
-        terms = list(assumptions) + ([extra] if extra is not None else [])
-        for a in self.axioms.relevant(terms):
-            s.add(a)
+        s.set("timeout", 2000 if full else 4000)
+        if full:
+            for a in self.axioms.relevant(terms):
+                s.add(a)
         for a in terms:
             s.add(a)
         r = s.check()
-        self.quick_time += time.time() - t0
+        dt = time.time() - t0
+        self.quick_time += dt
         self.quick_calls += 1
+        if dt > 1.0 and os.environ.get("PYVC_DEBUG"):
+            print(f"[slow quick_sat {dt:.1f}s -> {r}] extra={str(extra)[:200]} npc={len(assumptions)}", file=sys.stderr)
         return str(r)
 
     def add_obligation(self, st: State, name, kind, goal, node=None, clause="", extra_assumptions=()):
@@ -280,6 +293,8 @@ class Engine:
             return
         line = getattr(node, "lineno", 0)
         rf = "sat" if z3.is_false(ok) else self.quick_sat(st.pc, z3.Not(ok))
+        if rf != "unsat" and not z3.is_false(ok) and any(z3.is_quantifier(a) for a in st.pc):
+            rf = self.quick_sat(st.pc, z3.Not(ok), full=True)
         if rf == "unsat":
             ob = Obligation(f"{self.cur_fn}::safety:{exc_name}@{line}:{what}", self.cur_fn, "safety", [], z3.BoolVal(True),
                             line, what, result="valid", backend="z3-inline")
@@ -350,6 +365,8 @@ class Engine:
         if k == "none":
             return VNone()
         if k == "opt":
+            if scalar_opt(t):
+                raise Unsupported("optional scalar read without its presence flag")
             return self.wrap(st, term, t.args[0], nullable=True)
         if k == "obj":
             ci = self.class_of_type(t)
@@ -362,6 +379,8 @@ class Engine:
             return VDict(term, t.args[0], t.args[1], nullable)
         if k == "set":
             return VSet(term, t.args[0])
+        if k == "ext":
+            return st.new_ext(t.name, {"$term": term})
         if k == "tuple":
             items = []
             for i, et in enumerate(t.args):
@@ -401,8 +420,14 @@ class Engine:
                 st.assume(self.tuple_proj(tt, i)(ref) == tm)
             return ref
         if isinstance(v, VExt):
-            return z3.IntVal(1_000_000 + v.ident)
+            return self.ext_term(st, v)
         raise Unsupported(f"cannot store value {v!r} in the heap")
+
+    def ext_term(self, st, v):
+        a = st.ext_attrs(v)
+        if "$term" in a:
+            return a["$term"]
+        return z3.IntVal(1_000_000 + v.ident)
 
     def fresh_value(self, st: State, t: T, prefix="v", allocated=True) -> V:
         k = t.kind
@@ -411,7 +436,9 @@ class Engine:
         if k == "none":
             return VNone()
         if k == "ext":
-            return VExt(t.name, {})
+            return st.new_ext(t.name, {})
+        if scalar_opt(t):
+            return VOpt(st.fresh(prefix + "_isnone", z3.BoolSort()), self.fresh_value(st, t.args[0], prefix))
         term = st.fresh(prefix, sort_of(t))
         v = self.wrap(st, term, t)
         if isinstance(v, (VObj, VList, VDict, VSet)):
@@ -431,19 +458,38 @@ class Engine:
     def get_field(self, st: State, obj: VObj, field, node=None) -> V:
         ft = self.field_type(obj.cls, field)
         if ft.kind == "ext":
-            return VExt(ft.name, {"$of": (obj, field)})
+            return st.new_ext(ft.name, {})
+        if scalar_opt(ft):
+            owner = self.field_owner(obj.cls, field)
+            mv = st.fmap(owner, field, sort_of(ft.args[0]))
+            mn = st.fmap(owner, field + "?", z3.BoolSort())
+            return VOpt(z3.Select(mn, obj.ref), self.wrap(st, z3.Select(mv, obj.ref), ft.args[0]))
         m = st.fmap(self.field_owner(obj.cls, field), field, sort_of(ft))
         term = z3.Select(m, obj.ref)
         v = self.wrap(st, term, ft)
-        self.assume_wf(st, v)
+        self.assume_wf(st, v, m)
         if self.line_sort_hook:
             v = self.line_sort_hook(obj, field, v)
         return v
 
-    def assume_wf(self, st: State, v: V):
+    def assume_wf(self, st: State, v: V, src_map=None):
+        """Heap well-formedness: a reference read from the heap denotes an allocated object. When it is
+        read from a map that is still the function-entry map (possibly under a few Stores), it is either
+        one of the stored values or was allocated before the function started (<= alloc0)."""
         if isinstance(v, (VObj, VList, VDict, VSet)):
             lo = 0 if getattr(v, "nullable", False) else 1
             st.assume(z3.And(v.ref >= lo, v.ref <= st.alloc))
+            if src_map is not None and st.alloc0 is not None:
+                stored = []
+                m = src_map
+                depth = 0
+                while z3.is_app(m) and m.decl().kind() == z3.Z3_OP_STORE and depth < 8:
+                    stored.append(m.arg(2))
+                    m = m.arg(0)
+                    depth += 1
+                if z3.is_const(m) and m.decl().kind() == z3.Z3_OP_UNINTERPRETED and m.decl().name().startswith("H_") \
+                        and all(x.sort() == v.ref.sort() for x in stored):
+                    st.assume(z3.Or([v.ref <= st.alloc0] + [v.ref == x for x in stored]))
         if isinstance(v, VTuple):
             for it in v.items:
                 self.assume_wf(st, it)
@@ -452,6 +498,21 @@ class Engine:
         ft = self.field_type(obj.cls, field)
         owner = self.field_owner(obj.cls, field)
         if ft.kind == "ext":
+            return
+        if scalar_opt(ft):
+            ln = getattr(node, "lineno", 0)
+            mn = st.fmap(owner, field + "?", z3.BoolSort())
+            mv = st.fmap(owner, field, sort_of(ft.args[0]))
+            if isinstance(val, VNone):
+                st.heap[("F", owner, field + "?")] = z3.Store(mn, obj.ref, z3.BoolVal(True))
+            elif isinstance(val, VOpt):
+                st.heap[("F", owner, field + "?")] = z3.Store(mn, obj.ref, val.none)
+                st.heap[("F", owner, field)] = z3.Store(mv, obj.ref, self.unwrap(st, val.inner, ft.args[0]))
+            else:
+                st.heap[("F", owner, field + "?")] = z3.Store(mn, obj.ref, z3.BoolVal(False))
+                st.heap[("F", owner, field)] = z3.Store(mv, obj.ref, self.unwrap(st, val, ft.args[0]))
+            st.writes.append((("F", owner, field), obj.ref, ln))
+            st.writes.append((("F", owner, field + "?"), obj.ref, ln))
             return
         m = st.fmap(owner, field, sort_of(ft))
         term = self.unwrap(st, val, ft)
@@ -467,9 +528,10 @@ class Engine:
 
     def list_get_raw(self, st: State, l: VList, idx) -> V:
         es = sort_of(l.elem)
-        term = z3.Select(z3.Select(st.eltmap(es), l.ref), idx)
+        em = st.eltmap(es)
+        term = z3.Select(z3.Select(em, l.ref), idx)
         v = self.wrap(st, term, l.elem)
-        self.assume_wf(st, v)
+        self.assume_wf(st, v, em if z3.is_const(em) else None)
         return v
 
     def norm_index(self, st, n, idx):
@@ -616,6 +678,8 @@ class Engine:
             return z3.Length(v.t) > 0
         if isinstance(v, VNone):
             return z3.BoolVal(False)
+        if isinstance(v, VOpt):
+            return z3.And(z3.Not(v.none), self.truthy(st, v.inner, node))
         if isinstance(v, VCList):
             return z3.BoolVal(len(st.cl[v.id]) > 0)
         if isinstance(v, VList):
@@ -636,8 +700,6 @@ class Engine:
         if isinstance(v, VTuple):
             return z3.BoolVal(len(v.items) > 0)
         if isinstance(v, (VExt, VFunc, VClass, VModule)):
-            if isinstance(v, VExt) and "$truthy" in v.attrs:
-                return v.attrs["$truthy"]
             return z3.BoolVal(True)
         if isinstance(v, VOpaque):
             return self.opaque_truthy(st, v)
@@ -657,6 +719,13 @@ class Engine:
             return self.as_real(a) == self.as_real(b)
         if isinstance(a, VStr) and isinstance(b, VStr):
             return a.t == b.t
+        if isinstance(a, VOpt) or isinstance(b, VOpt):
+            if isinstance(a, VOpt) and isinstance(b, VOpt):
+                return z3.Or(z3.And(a.none, b.none), z3.And(z3.Not(a.none), z3.Not(b.none), self.values_equal(st, a.inner, b.inner, node)))
+            o, x = (a, b) if isinstance(a, VOpt) else (b, a)
+            if isinstance(x, VNone):
+                return o.none
+            return z3.And(z3.Not(o.none), self.values_equal(st, o.inner, x, node))
         if isinstance(a, VNone) or isinstance(b, VNone):
             o = b if isinstance(a, VNone) else a
             if isinstance(o, VNone):
@@ -692,11 +761,7 @@ class Engine:
         if isinstance(a, VExt) and isinstance(b, VExt):
             if a.ident == b.ident:
                 return z3.BoolVal(True)
-            if "$term" in a.attrs and "$term" in b.attrs:
-                return a.attrs["$term"] == b.attrs["$term"]
-            if a.kind == b.kind and a.attrs.keys() == b.attrs.keys() and a.attrs and not any(k.startswith("$") for k in a.attrs):
-                return z3.And([self.values_equal(st, a.attrs[k], b.attrs[k]) for k in a.attrs])
-            raise Unsupported("equality of opaque externals", node)
+            return self.ext_term(st, a) == self.ext_term(st, b)
         if isinstance(a, (VCList, VList)) and isinstance(b, (VCList, VList)):
             return self.b.list_eq(st, a, b)
         if isinstance(a, VObj) and not isinstance(b, VObj):
@@ -954,14 +1019,20 @@ class Engine:
         return res
 
     def identical(self, st, a, b, node):
-        if isinstance(a, VNone) or isinstance(b, VNone):
+        if isinstance(a, VNone) or isinstance(b, VNone) or isinstance(a, VOpt) or isinstance(b, VOpt):
             return self.values_equal(st, a, b, node)
         if isinstance(a, (VObj, VList, VDict)) and isinstance(b, (VObj, VList, VDict)):
             return a.ref == b.ref
         if isinstance(a, VBool) and isinstance(b, VBool):
             return a.t == b.t
         if isinstance(a, VExt) and isinstance(b, VExt):
-            return z3.BoolVal(a.ident == b.ident)
+            if a.ident == b.ident:
+                return z3.BoolVal(True)
+            return self.ext_term(st, a) == self.ext_term(st, b)
+        if isinstance(a, VCList) and isinstance(b, VCList):
+            return z3.BoolVal(a.id == b.id)
+        if isinstance(a, (VCList, VList)) and isinstance(b, (VCList, VList)):
+            return z3.BoolVal(False)
         raise Unsupported("identity comparison", node)
 
     def ev_BinOp(self, n, st):
@@ -1106,6 +1177,16 @@ class Engine:
             for p in s2.pc[len(old.pc):]:
                 st.assume(p)
             return v
+        if st.spec_mode and isinstance(n.func, ast.Name) and n.func.id in ("implies", "iff") and n.func.id not in st.env:
+            from .builtins import SpecFalse
+            ts = []
+            for a in n.args:
+                try:
+                    ts.append(self.truthy(st, self.ev(a, st), n))
+                except SpecFalse as e:
+                    self.notes.append(f"sub-clause ill-formed on a path ({e}): {ast.unparse(a)[:80]}")
+                    ts.append(z3.BoolVal(False))
+            return VBool(z3.Implies(ts[0], ts[1]) if n.func.id == "implies" else ts[0] == ts[1])
         if isinstance(n.func, ast.Attribute) and isinstance(n.func.value, ast.Call) and \
                 isinstance(n.func.value.func, ast.Name) and n.func.value.func.id == "super":
             return self.super_call(n, st)
@@ -1373,7 +1454,48 @@ class Engine:
             raise Unsupported(f"statement {type(s).__name__} in spec function", s)
         raise Unsupported("spec function without return")
 
+    def check_call_site(self, st: State, fn: FuncInfo, args, kwargs, node):
+        fk = st.ghost.get("fn_key") or self.cur_fn
+        cc = self.reg.get(fk) if fk else None
+        if cc is None or not cc.call_sites or st.spec_mode:
+            return
+        for pat, clauses in cc.call_sites.items():
+            if pat not in (fn.qualname, fn.node.name, fn.key):
+                continue
+            env = {k: v for k, v in st.env.items()}
+            try:
+                bound = self.bind_params(st, fn.node, args, kwargs, node, fn.module)
+            except PyRaise:
+                bound = {}
+            for i, a in enumerate(args):
+                env[f"arg{i}"] = a
+            for k, v in bound.items():
+                env["arg_" + k] = v
+            line = getattr(node, "lineno", 0)
+            for nm, text in clauses.items():
+                g = self.eval_clause(st, text, env, st.module, old_state=st.entry)
+                self.add_obligation(st, f"call-site:{fn.qualname}:{nm}@{line}", "call-site", g, node, text)
+            seen = st.ghost.get("call_sites_seen", frozenset())
+            st.ghost = dict(st.ghost)
+            st.ghost["call_sites_seen"] = seen | {pat}
+
     def call_function(self, st: State, fn: FuncInfo, args, kwargs, node) -> V:
+        self.check_call_site(st, fn, args, kwargs, node)
+        if st.spec_mode:
+            return self._call_function(st, fn, args, kwargs, node)
+        ev = Event("call", fn.qualname, list(args), dict(kwargs), getattr(node, "lineno", 0))
+        ev.result = None
+        pos = len(st.trace)
+        st.trace.append(ev)
+        r = self._call_function(st, fn, args, kwargs, node)
+        ev2 = Event("call", fn.qualname, list(args), dict(kwargs), getattr(node, "lineno", 0))
+        ev2.result = r
+        # the callee may have appended events (inline execution): keep order, replace the marker
+        if pos < len(st.trace) and st.trace[pos] is ev:
+            st.trace[pos] = ev2
+        return r
+
+    def _call_function(self, st: State, fn: FuncInfo, args, kwargs, node) -> V:
         c = self.reg.get(fn.key)
         if st.spec_mode and (c is None or c.inline or fn.key in self.reg.inline):
             # pure helper used inside a specification: summarise by inlining in spec mode
@@ -1452,6 +1574,9 @@ class Engine:
         for p in s.pc[len(st.pc):]:
             st.assume(p)
         st.fresh_ctr = s.fresh_ctr
+        for k, v in s.ext.items():
+            if k not in st.ext or len(v) > len(st.ext[k]):
+                st.ext[k] = v
         return t
 
     def call_contract(self, st: State, fn: FuncInfo, c: Contract, args, kwargs, node) -> V:
@@ -1500,10 +1625,19 @@ class Engine:
         if c.fresh_result and isinstance(res, (VObj, VList, VDict)):
             st.assume(res.ref > pre.alloc)
         for nm, text in c.ensures.items():
+            if self.mentions_trace(text):
+                continue  # statements about the callee's own output events are not usable by callers
             st.assume(self.eval_clause(st, text, env, fn.module, old_state=pre, extra={"result": res}))
         if c.assumed:
             self.used_assumptions.add(f"assumed contract: {fn.key}")
         return res
+
+    TRACE_FUNCS = {"out_len", "out_method", "out_arg", "out_kw", "trace_len", "trace_method", "trace_arg", "trace_kw",
+                   "trace_target", "called", "call_result", "call_count"}
+
+    def mentions_trace(self, text):
+        tree = ast.parse(text.strip(), mode="eval")
+        return any(isinstance(n, ast.Name) and n.id in self.TRACE_FUNCS for n in ast.walk(tree))
 
     def coerce(self, st, v, t: T):
         if isinstance(v, VCList) and t.kind == "list":
@@ -1703,6 +1837,11 @@ class Engine:
 
     def assign(self, st, t, v, node):
         if isinstance(t, ast.Name):
+            if isinstance(v, VCList) and (v.elem is None or v.elem == TAny):
+                fk = st.ghost.get("fn_key") or self.cur_fn
+                cc = self.reg.get(fk) if fk else None
+                if cc is not None and t.id in cc.locals and cc.locals[t.id].kind == "list":
+                    v.elem = cc.locals[t.id].args[0]
             st.env[t.id] = v
             return
         if isinstance(t, (ast.Tuple, ast.List)):
@@ -1871,7 +2010,8 @@ class Engine:
             head = ast.unparse(node.iter) if isinstance(node, ast.For) else ast.unparse(node.test)
             tgt = ast.unparse(node.target) + " in " if isinstance(node, ast.For) else ""
             actual = (tgt + head)
-            if spec.fingerprint.replace(" ", "") not in (actual.replace(" ", ""), head.replace(" ", "")):
+            norm = lambda x: x.replace(" ", "").replace("(", "").replace(")", "")
+            if norm(spec.fingerprint) not in (norm(actual), norm(head)):
                 raise Drift(f"loop {lid} header changed: expected '{spec.fingerprint}', found '{actual}'", node)
         return spec
 
@@ -1900,6 +2040,22 @@ class VOpaque(V):
 
     def __repr__(self):
         return f"VOpaque({self.t})"
+
+
+class VOpt(V):
+    """Optional scalar (str/int/bool/real): `none` is a z3 Bool, `inner` the value when present."""
+
+    def __init__(self, none, inner):
+        self.none = none
+        self.inner = inner
+        self.typ = TOpt(inner.typ)
+
+    def __repr__(self):
+        return f"VOpt({self.none},{self.inner})"
+
+
+def scalar_opt(t: T):
+    return t.kind == "opt" and t.args[0].kind in ("str", "int", "bool", "real")
 
 
 class VSet(V):
